@@ -49,7 +49,9 @@ type EQuant struct {
 	Forall   bool
 	Vars     []qvar
 	Body     Expr
-	Triggers []Expr // optional {e1, e2}: one multi-pattern
+	Triggers []Expr // optional {e1, e2}
+	// AltTriggers: further trigger sets, each an alternative multi-pattern
+	AltTriggers [][]Expr
 }
 type qvar struct {
 	Name string
@@ -270,15 +272,24 @@ func (p *parser) quant(forall bool) Expr {
 		}
 		break
 	}
-	if p.isOp("{") {
+	first := true
+	for p.isOp("{") {
 		p.pos++
+		var set []Expr
 		for !p.isOp("}") {
-			q.Triggers = append(q.Triggers, p.expr(0))
+			set = append(set, p.expr(0))
 			if p.isOp(",") {
 				p.pos++
 			}
 		}
 		p.expectOp("}")
+		if first {
+			q.Triggers = set
+			first = false
+		} else {
+			// further trigger sets are alternatives: {a, b} {c}
+			q.AltTriggers = append(q.AltTriggers, set)
+		}
 	}
 	p.expectOp("::")
 	q.Body = p.expr(0)
@@ -395,6 +406,7 @@ type Clause struct {
 type LoopContract struct {
 	Ordinal    int
 	Invariants []Clause
+	BackEdge   []Clause
 	Decreases  *Clause
 	Hint       string
 }
@@ -485,6 +497,7 @@ type ContractDB struct {
 	lockOrder [][2]string
 	files     []string
 	panicsOK  map[string]bool
+	frames    []*FrameClause
 }
 
 func (db *ContractDB) allowPanic(fn string) bool {
@@ -495,8 +508,8 @@ func (db *ContractDB) allowPanic(fn string) bool {
 }
 
 var clauseKeywords = map[string]bool{
-	"hint": true, "ghostsum": true, "assert_at_unlock": true, "assert_after_store": true, "assume_after_lock": true, "apply_after_lock": true, "opaque": true, "apply": true, "reveal": true, "guard": true, "lock": true, "lockorder": true, "pure": true, "lemma": true, "func": true, "props": true, "safety": true,
-	"requires": true, "ensures": true, "let": true, "assigns": true, "loop": true, "invariant": true,
+	"writers": true, "callers": true, "hint": true, "ghostsum": true, "assert_at_unlock": true, "assert_after_store": true, "assume_after_lock": true, "apply_after_lock": true, "opaque": true, "apply": true, "reveal": true, "guard": true, "lock": true, "lockorder": true, "pure": true, "lemma": true, "func": true, "props": true, "safety": true,
+	"requires": true, "ensures": true, "let": true, "assigns": true, "loop": true, "invariant": true, "backedge": true,
 	"decreases": true, "allow_panic": true, "modular": true, "init_context": true, "entry": true, "option": true, "uses": true, "end": true,
 }
 
@@ -635,6 +648,12 @@ func (db *ContractDB) addClauses(pkg string, clauses []string, path string) erro
 				return err
 			}
 			db.sums = append(db.sums, &GhostSum{Name: hd[0], MapType: TypeExpr{hd[1]}, Weight: e, Pkg: pkg})
+		case "writers", "callers":
+			fc, err := parseFrameClause(kw, pkg, props, rest)
+			if err != nil {
+				return err
+			}
+			db.frames = append(db.frames, fc)
 		case "lockorder":
 			f := strings.Split(rest, "->")
 			if len(f) != 2 {
@@ -755,9 +774,16 @@ func (db *ContractDB) addClauses(pkg string, clauses []string, path string) erro
 			case "assert_at_unlock":
 				// optional site selector:  assert_at_unlock[Cxx] #4 expr  (the 4th Unlock call in source order)
 				site := 0
+				lockSel := ""
 				if strings.HasPrefix(rest, "#") {
 					f := strings.SplitN(rest, " ", 2)
 					fmt.Sscanf(f[0], "#%d", &site)
+					rest = strings.TrimSpace(f[1])
+				}
+				// mutex selector:  assert_at_unlock[Cxx] @server.AuthorizedServers.mu expr
+				if strings.HasPrefix(rest, "@") {
+					f := strings.SplitN(rest, " ", 2)
+					lockSel = f[0][1:]
 					rest = strings.TrimSpace(f[1])
 				}
 				e, err := mustParse(rest)
@@ -767,6 +793,9 @@ func (db *ContractDB) addClauses(pkg string, clauses []string, path string) erro
 				cl := Clause{Expr: e, Text: rest, Props: props}
 				if site > 0 {
 					cl.Props = append(append([]string{}, props...), fmt.Sprintf("site=%d", site))
+				}
+				if lockSel != "" {
+					cl.Props = append(append([]string{}, cl.Props...), "site=lock:"+lockSel)
 				}
 				cur.UnlockAsserts = append(cur.UnlockAsserts, cl)
 			case "assert_after_store":
@@ -814,7 +843,7 @@ func (db *ContractDB) addClauses(pkg string, clauses []string, path string) erro
 				} else if len(f) == 1 {
 					cur.Opts[f[0]] = "true"
 				}
-			case "requires", "ensures", "invariant", "decreases":
+			case "requires", "ensures", "invariant", "decreases", "backedge":
 				e, err := mustParse(rest)
 				if err != nil {
 					return err
@@ -830,6 +859,13 @@ func (db *ContractDB) addClauses(pkg string, clauses []string, path string) erro
 						return fmt.Errorf("invariant outside loop block: %q", cl)
 					}
 					curLoop.Invariants = append(curLoop.Invariants, c)
+				case "backedge":
+					// two-state iteration assertion, checked at every back edge of the
+					// loop; atiter(e) is e at the start of the iteration
+					if curLoop == nil {
+						return fmt.Errorf("backedge outside loop block: %q", cl)
+					}
+					curLoop.BackEdge = append(curLoop.BackEdge, c)
 				case "decreases":
 					if curLoop == nil {
 						return fmt.Errorf("decreases outside loop block: %q", cl)
